@@ -341,11 +341,11 @@ func manifestString(m base.Manifest) string {
 
 func init() {
 	simkit.Register(&simkit.Harness{
-		ID:  "C11",
-		Run: c11Run,
-		Real: []string{"isaac.ProposalProcessors", "isaac.DefaultProposalProcessor", "isaacblock.Writer", "isaacoperation processors", "isaacdatabase.LeveldbBlockWrite on memory storage", "util.Retry", "util.BaseJobWorker"},
-		Stub: []string{"block file writer (recorder)", "proposal source and processor factory (map; injected errors and latency)", "database merge (the observation point)"},
-		Rule: "each run builds 2-4 proposals at 1-3 heights over a random prior state; 1-3 client tasks issue 3-9 calls each of Process (then wait for the manifest as the consensus handler does), Save with an ACCEPT voteproof (majority for the processed manifest, for a random block, for the manifest of another proposal), Cancel, and cancellation of a Process context, under seeded interleaving with proposal-fetch/processor-factory errors. At every database merge of a block writer: a Save call in flight must carry an ACCEPT majority whose proposal is the processor's and whose new block equals the manifest that processor computed; no processor saves twice; saved heights strictly increase. distinct = event-log hash",
+		ID:          "C11",
+		Run:         c11Run,
+		Real:        []string{"isaac.ProposalProcessors", "isaac.DefaultProposalProcessor", "isaacblock.Writer", "isaacoperation processors", "isaacdatabase.LeveldbBlockWrite on memory storage", "util.Retry", "util.BaseJobWorker"},
+		Stub:        []string{"block file writer (recorder)", "proposal source and processor factory (map; injected errors and latency)", "database merge (the observation point)"},
+		Rule:        "each run builds 2-4 proposals at 1-3 heights over a random prior state; 1-3 client tasks issue 3-9 calls each of Process (then wait for the manifest as the consensus handler does), Save with an ACCEPT voteproof (majority for the processed manifest, for a random block, for the manifest of another proposal), Cancel, and cancellation of a Process context, under seeded interleaving with proposal-fetch/processor-factory errors. At every database merge of a block writer: a Save call in flight must carry an ACCEPT majority whose proposal is the processor's and whose new block equals the manifest that processor computed; no processor saves twice; saved heights strictly increase. distinct = event-log hash",
 		Assumptions: []string{"ACCEPT voteproofs handed to Save have a majority (the handlers never save on a draw) and their point is the proposal's point"},
 	})
 }
